@@ -11,10 +11,11 @@ out = framework.Outcome(pid)
 importlib.import_module('props.' + pid.lower()).run(ctx, out)
 print("evals", out.evaluations, "A", len(out.a_mismatch), "B", len(out.b_fail))
 from collections import Counter
-print(Counter(m.get('diff', str(m.get('code')))[:60] for m in out.a_mismatch).most_common(12))
+print(Counter(str(m.get('diff', str(m.get('code'))))[:60] for m in out.a_mismatch).most_common(12))
 print(Counter(b['signature'] for b in out.b_fail).most_common(20))
 n = int(sys.argv[3]) if len(sys.argv) > 3 else 2
 for m in out.a_mismatch[:n]:
     print("=== A:", m.get('diff')); print(m['case'].get('label')); print(m['case'].get('shapes_ttl', '')[:1500]); print(m['case'].get('data_nt', '')[:800])
 for b in out.b_fail[:n]:
     print("=== B:", {k: v for k, v in b.items() if k != 'case'}); print(b['case'].get('label')); print(b['case'].get('shapes_ttl', '')[:1500]); print(b['case'].get('data_nt', '')[:800])
+print(dict(out.counters)); print("nontrivial", len(out.nontrivial))
